@@ -188,6 +188,13 @@ def mk_doc(ctx: Ctx, allow: set[str]) -> specgen.Doc:
             e["tags"] = [tag]
             d.doc["paths"][e["path"]][e["method"].lower()]["tags"] = [tag]
         d.features.add("long_tags_with_common_prefix")
+    if "tag_named_like_client_member" in allow and d.ops:
+        # a tag spelled like something APIClient / MockAPIClient use themselves (constructor argument, attribute, method)
+        e = rng.choice(d.ops)
+        tag = rng.choice(["self", "transport", "_transport", "close", "request", "Transport", "Self"])
+        e["tags"] = [tag]
+        d.doc["paths"][e["path"]][e["method"].lower()]["tags"] = [tag]
+        d.features.add("tag_named_like_client_member")
     if "multi_tag" in allow and len(d.ops) >= 2 and rng.random() < 0.5:
         # operation A carries [X, Y]; operation B has Y (or a spelling variant) as FIRST tag and an operationId that
         # derives to the same method name: both live in client Y and must get distinct names there
@@ -273,8 +280,11 @@ def run_shard(ctx: Ctx) -> None:
         items = []
         for k in range(bs):
             trig: set[str] = set()
-            if ctx.rng.random() < 0.3:
+            r = ctx.rng.random()
+            if r < 0.3:
                 trig = {"multi_tag"}
+            elif r < 0.36:
+                trig = {"tag_named_like_client_member"}
             items.append({"doc": mk_doc(ctx, trig), "n": ctx.shard * 100000 + b + k, "trigger": trig,
                           "strategy": ctx.rng.choice(["operationId", "clean", "path"]), "rendering": ctx.rng.choice(RENDERINGS)})
         run_batch(ctx, items)
